@@ -63,7 +63,7 @@ def valid_msg(rng, compat, flags, cls=None, method=None, txid=None, key=None, us
     if key is not None:
         m.mi(key, (user, realm) if (flags & F_LONG and realm is not None) else None)
     if fpr if fpr is not None else (compat in (1, 2) and flags & F_FPR):
-        m.fpr()
+        m.fpr(typo=rng.random() < 0.15)
     return m
 
 
@@ -271,7 +271,7 @@ def gen_case(rng, i, kinds):
                     kk = hashlib.md5(user + b":realm:" + kk).digest()
                 m.mi(kk)
             if compat in (1, 2) and flags & F_FPR:
-                m.fpr()
+                m.fpr(typo=rng.random() < 0.3)      # sometimes the WLM 2009 checksum: differs from the CRC-32 for about one message in seven
             b = m.raw()
             ops.append("V - 1 %s" % hx(b))
             if rng.random() < 0.6:
